@@ -75,7 +75,8 @@ def run_llw(units, root: Path, jobs=16):
         d = gram / u.gid
         d.mkdir(exist_ok=True)
         (d / "g.llw").write_bytes(u.text.encode())
-        return subprocess.Popen([llw, "-o", str(d), str(d / "g.llw")], cwd=str(d), env=ENV,
+        # -g: the graph output runs on every accepted grammar as well (C11: it must not panic)
+        return subprocess.Popen([llw, "-g", "-o", str(d), str(d / "g.llw")], cwd=str(d), env=ENV,
                                 stdout=subprocess.DEVNULL, stderr=subprocess.PIPE)
 
     pending = list(units)
@@ -384,19 +385,23 @@ class Arena:
                "    match module {\n" + arms + '\n        _ => format!("{{\\"id\\":\\"{id}\\",\\"error\\":\\"no module\\"}}"),\n    }\n}\n')
         (self.dir / "src" / "main.rs").write_text(head + "\n" + mods + "\n" + run)
 
-    def build(self, profile="dev", max_rounds=6):
+    def build(self, profile="dev", max_rounds=6, asan=False):
         """cargo build; modules that do not compile are removed (and recorded) and the build retried"""
         env = dict(ENV)
         env["CARGO_TARGET_DIR"] = str(self.dir / "target")
+        if asan:
+            env["RUSTFLAGS"] = "-Zsanitizer=address -Cforce-frame-pointers=yes"
         failed = {}
         for rnd in range(max_rounds):
-            args = ["cargo", "build", "--offline", "--message-format", "short"]
+            args = ["cargo"] + (["+nightly"] if asan else []) + ["build", "--offline", "--message-format", "short"]
+            if asan:
+                args += ["--target", "x86_64-unknown-linux-gnu"]
             if profile == "release":
                 args.append("--release")
             r = subprocess.run(args, cwd=str(self.dir), env=env, stdout=subprocess.PIPE, stderr=subprocess.STDOUT, text=True)
             self.build_log = r.stdout
             if r.returncode == 0:
-                self.bin = self.dir / "target" / ("release" if profile == "release" else "debug") / "arena"
+                self.bin = self.dir / "target" / ("x86_64-unknown-linux-gnu" if asan else "") / ("release" if profile == "release" else "debug") / "arena"
                 return failed
             bad = {}
             for ln in r.stdout.splitlines():
@@ -421,7 +426,29 @@ class Arena:
             self._write_main()
         raise Inconclusive("arena build did not converge")
 
-    def run(self, jobs, budget_ms=20000, mem_gb=6):
+    def run_miri(self, jobs, timeout=3000):
+        """the same job protocol under the Miri interpreter (slow: a few hundred small jobs)"""
+        env = dict(ENV)
+        env["CARGO_TARGET_DIR"] = str(self.dir / "target-miri")
+        env["MIRIFLAGS"] = "-Zmiri-disable-isolation"
+        data = "".join(f"{j[0]}\t{j[1]}\t{j[2]}\t{j[3]}\t{j[4]}\t-\t{_esc(j[5])}\n" for j in jobs).encode()
+        try:
+            p = subprocess.run(["cargo", "+nightly", "miri", "run", "--offline", "--", "600000"], cwd=str(self.dir), env=env, input=data,
+                               stdout=subprocess.PIPE, stderr=subprocess.PIPE, timeout=timeout)
+        except subprocess.TimeoutExpired:
+            return None, "timeout", ""
+        results = {}
+        for ln in p.stdout.decode(errors="replace").splitlines():
+            if ln.startswith("{"):
+                try:
+                    rec = json.loads(ln)
+                    if "id" in rec:
+                        results[rec["id"]] = rec
+                except json.JSONDecodeError:
+                    pass
+        return results, p.returncode, p.stderr.decode(errors="replace")
+
+    def run(self, jobs, budget_ms=20000, mem_gb=6, asan_log=None):
         """jobs: list of (id, module, entry, seed, 'pa' modes, source).  Returns (results by id, incidents)."""
         import resource
         results = {}
@@ -430,11 +457,15 @@ class Arena:
         start = 0
 
         def limits():
-            resource.setrlimit(resource.RLIMIT_AS, (mem_gb << 30, mem_gb << 30))
+            if asan_log is None:       # AddressSanitizer reserves terabytes of address space
+                resource.setrlimit(resource.RLIMIT_AS, (mem_gb << 30, mem_gb << 30))
+        penv = dict(ENV)
+        if asan_log is not None:
+            penv["ASAN_OPTIONS"] = f"log_path={asan_log}:halt_on_error=1:abort_on_error=1:detect_leaks=0"
 
         while start < len(lines):
             p = subprocess.Popen([str(self.bin), str(budget_ms)], stdin=subprocess.PIPE, stdout=subprocess.PIPE,
-                                 stderr=subprocess.DEVNULL, preexec_fn=limits)
+                                 stderr=subprocess.DEVNULL, preexec_fn=limits, env=penv)
             data = "".join(lines[start:]).encode()
             try:
                 out, _ = p.communicate(data, timeout=3600)
